@@ -1,4 +1,7 @@
-import Bluebell.Props.C05
+import Bluebell.Convert
+import Bluebell.Unparse
+import Bluebell.Props.C18
+import Bluebell.Props.C02
 /-!
 # C06 — unparsing escapes text so it can never turn into markup
 
@@ -26,6 +29,13 @@ The general structural statement is decided on the real code by the tree oracle 
 escaping gaps F32–F34, F36, F37); it is not yet a theorem.
 -/
 namespace Bluebell
+
+/-- the string literals of a keyword rule (a choice of literals) -/
+def ruleLits (g : Grammar) (rule : String) : List String :=
+  match g.lookup rule with
+  | some e => (alternatives e).filterMap fun a => match a with | .lit s => some (String.ofList s) | _ => none
+  | none => []
+
 
 /-- all string literals occurring in an expression -/
 def litsOf : PExp → List String
